@@ -26,6 +26,47 @@ def all_hypergraphs(kind, weighted, tier, seed):
     return out
 
 
+def split_hypergraphs(kind, weighted, tier, seed):
+    """hypergraphs made of two or three connected blocks of chosen sizes on 5-9 nodes (so that the order in
+    which components are met, and near-ties between their sizes, vary), plus isolated nodes"""
+    import random
+    if kind != "hg":
+        return []
+    rng = random.Random(seed * 131 + (7 if weighted else 0))
+    out = []
+    for i in range(40 if tier == "quick" else 600):
+        n = rng.choice([5, 5, 6, 7, 8, 9])
+        nodes = list(range(1, n + 1))
+        rng.shuffle(nodes)
+        nb = rng.choice([2, 2, 3])
+        cuts = sorted(rng.sample(range(1, n), nb - 1))
+        blocks = [nodes[a:b] for a, b in zip([0] + cuts, cuts + [n])]
+        edges = []
+        for blk in blocks:
+            if len(blk) == 1:
+                continue                      # an isolated node
+            # a connected set of hyperedges on the block: a chain of overlapping hyperedges
+            j = 0
+            while j < len(blk) - 1:
+                z = rng.randint(2, min(4, len(blk) - j))
+                edges.append(tuple(blk[j:j + z]))
+                j += z - 1
+            if rng.random() < 0.4 and len(blk) >= 3:
+                edges.append(tuple(rng.sample(blk, rng.randint(2, min(4, len(blk))))))
+        order = list(edges)
+        if rng.random() < 0.5:
+            rng.shuffle(order)                # otherwise: first block first
+        ops = [{"op": "add_nodes", "items": [{"n": x, "hasmd": False, "md": {}} for x in sorted(nodes[:2])]}]
+        for e in order:
+            ops.append({"op": "add_edge", "k": {"s": sorted(e), "t": [], "x": 0}, "w": 0, "hasmd": False, "md": {}, "bad": ""})
+        out.append((ops, n, "two-or-three-blocks"))
+    return out
+
+
+def _extra(kind, weighted, tier, seed):
+    return all_hypergraphs(kind, weighted, tier, seed) + split_hypergraphs(kind, weighted, tier, seed)
+
+
 def run(tier, seed):
     res = Result("C08", tier, seed, "model_checking")
     explore(res, "hg", tier, module="MC_Derive",
@@ -33,7 +74,7 @@ def run(tier, seed):
             configs=[dict(n=3, maxw=1, batches=False, metaops=False)] +
                     ([dict(n=4, maxw=1, batches=False, metaops=False, weighted=False)] if tier == "thorough" else []))
     run_container("C08", "hg", tier, seed, res=res, finish=False, do_explore=False, cc=True,
-                  own_clauses=CC_CLAUSES | DEG, foreign=(), extra_behaviours=all_hypergraphs,
+                  own_clauses=CC_CLAUSES | DEG, foreign=(), extra_behaviours=_extra,
                   scale=0.5 if tier == "quick" else 1.0)
     for kind in ("dir", "temp", "mux"):
         run_container("C08", kind, tier, seed, res=res, finish=False, do_explore=False,
